@@ -138,6 +138,8 @@ func canonOps() []OpM {
 		{Kind: "set_labels", Idx: 0, Labels: []string{"one"}},
 		{Kind: "set_labels", Idx: 0, Labels: []string{"a b", "$${c", "new\nline"}},
 		{Kind: "set_labels", Idx: 0, Labels: []string{"n"}, Path: in1},
+		{Kind: "set_labels", Idx: 0, Keep: 1},
+		{Kind: "set_labels", Idx: 0, Keep: 1, Labels: []string{"cafe\u0301"}},
 		{Kind: "append_newline"},
 		{Kind: "append_newline", Path: in1},
 		{Kind: "hold", Idx: 0},
